@@ -44,23 +44,38 @@ PROPS_PART = {
                    'the file-system / zone-loading calls: the new catalog holds entries for exactly the configured zones; each zone is filed under its own '
                    'name and class with the freshly loaded zone if the load succeeded, else with the previous entry whose name is EXACTLY the zone\'s if that '
                    'was Loaded, else with a FailedToLoad placeholder (or, for an unchanged file, its own previous Loaded entry); each zone\'s entry depends '
-                   'only on its own configuration, its own exact previous entry and its own files. NOT APPLICABLE part: SIGHUP delivery, process '
-                   'lifetime, what is observed over UDP.',
+                   'only on its own configuration, its own exact previous entry and its own files; zones::load / zones::reload return exactly that catalog. '
+                   'For the reload step reload_zones_and_keys (run.rs, called by the SIGHUP branch), for every reload source and every outcome of '
+                   'config::load_from_path: Ok(r) => r is the catalog zones::reload built for the zones configured NOW over the previously served catalog, '
+                   'the server serves exactly r (Server::set_catalog was called with it: zones removed from the configuration have no entry any more, a '
+                   'failed zone keeps its own previously served data, a never-loaded zone is FailedToLoad) and its TSIG keys are the reloaded ones; Err => '
+                   'only if the configuration could not be loaded, and the served catalog and keys are unchanged; nothing else of the server changes. '
+                   'NOT APPLICABLE part: SIGHUP delivery, process lifetime, what is observed over UDP.',
         level_note='Trusted: Verus/Z3; prelude/zones_reload_std.rs stand-ins (PathBuf, SystemTime, fs::metadata, io::Error, anyhow, Result::and_then); '
                    'file-system quiescence during one load_impl run (oracle functions); ASSUMED catalog contracts (new/insert/lookup=longest suffix/get=exact) '
                    'of the shape proved for the real HashMapTreeCatalog in unit `catalog` (C22); load_and_validate_zone external. When the unchanged-file '
-                   'shortcut fires (path and mtime comparison) is not specified. Binary crate: Verus only.',
-        verus=[dict(unit='zones_reload', which='all')],
+                   'shortcut fires (path and mtime comparison) is not specified. Unit zones_reload_run: prelude/zones_reload_run_std.rs (Path, anyhow::Context); '
+                   'Server is a stand-in with a ghost view (served catalog, TSIG keys, rest) and ASSUMED setter contracts; its interior mutability (RwLock behind '
+                   '&self) is modelled as &mut (sigsub on the `server` parameter, body unchanged); config::load_from_path and make_tsig_key_map are external '
+                   '(oracle functions); zones::* enter as the contracts proved in unit zones_reload (fragment included with mode=assume). Binary crate: Verus only.',
+        verus=[dict(unit='zones_reload', which='all'), dict(unit='zones_reload_run', which='all')],
         kani=[],
         cex={},   # demonstration = notes/demos/C31_d14_reload_test.rs (scratch-copy test in the binary crate)
-        unverified=['load / reload (one-line wrappers of load_impl)', 'load_and_validate_zone, validate_zone (parser and validator: external, arbitrary result)',
+        unverified=['load_and_validate_zone, validate_zone (parser and validator: external, arbitrary result)',
                     'the criterion of the unchanged-file shortcut (PathBuf == and SystemTime <= are unconstrained)',
-                    'run.rs: SIGHUP handling, catalog swap, serving (n/a part)'],
+                    'run.rs try_running (one 140-line function of socket / signal / thread set-up, not extractable): the SIGHUP branch itself '
+                    '(`Ok(new_catalog) => catalog = new_catalog`, `Err` => log and keep), i.e. that the loop keeps the tracked catalog equal to the served one and '
+                    'hands it to the next reload, and the start-up sequence zones::load + set_catalog; signal delivery and serving are the n/a part',
+                    'Server::set_catalog / set_tsig_keys bodies (one assignment through an RwLock each: assumed contract) and that request threads see the swap atomically (C32)',
+                    'config::load_from_path (TOML / serde) and make_tsig_key_map (iterator chain into a HashMap): external, arbitrary result'],
         assumptions=['configured zones have pairwise distinct (name, class) (config.rs find_duplicated_zone rejects duplicates)',
                      'fewer than 2^31 configured zones (zones_failed is an i32)',
                      'the previous catalog was produced by load_impl (entries filed under their own key, no NotYetLoaded)',
                      'the file system does not change during one load_impl run',
-                     'a zone returned by load_and_validate_zone carries the configured name and class'],
+                     'a zone returned by load_and_validate_zone carries the configured name and class',
+                     'when reload_zones_and_keys is called, its `catalog` argument is the catalog the server serves and was built by zones::load / reload '
+                     '(loop invariant of try_running; re-established by the proved postcondition, but the loop itself is not under contract)',
+                     'after start-up the main thread is the only writer of the server\'s catalog and key locks'],
     ),
 
 }
